@@ -180,7 +180,18 @@ func main() {
 		fatal("unknown property %s", id)
 	}
 	start := time.Now()
-	bdir := filepath.Join(verifDir, ".build", id)
+	// one build directory per process (concurrent runs of one property do not disturb each other); directories
+	// left behind by runs that are gone are removed here
+	if old, _ := filepath.Glob(filepath.Join(verifDir, ".build", id+".*")); len(old) > 0 {
+		for _, d := range old {
+			pid := d[strings.LastIndex(d, ".")+1:]
+			if _, err := os.Stat("/proc/" + pid); err != nil {
+				_ = os.RemoveAll(d)
+			}
+		}
+	}
+	_ = os.RemoveAll(filepath.Join(verifDir, ".build", id))
+	bdir := filepath.Join(verifDir, ".build", fmt.Sprintf("%s.%d", id, os.Getpid()))
 	_ = os.RemoveAll(bdir)
 	if err := os.MkdirAll(bdir, 0o755); err != nil {
 		fatal("%v", err)
@@ -228,6 +239,19 @@ func main() {
 	wg.Wait()
 	if buildErr != nil {
 		fatal("build failed: %v", buildErr)
+	}
+	// No verdict of the scheduler engine is believed before the engine has passed its self-test in this very build
+	// (interleaving counts per preemption bound, deadlock / lost wake-up / livelock detection, pool and map answers,
+	// replay): a failure is a harness error.
+	selfNote := ""
+	if sb, ok := bins[bSched.Name]; ok {
+		out := filepath.Join(bdir, "res-selftest.json")
+		res, herr := runWorker(sb, []string{"-prop", "SELF", "-tier", "quick", "-build", bSched.Name, "-shard", "0", "-nshards", "1",
+			"-seed", "1", "-budget", "60", "-out", out}, out, 120*time.Second)
+		if herr != "" {
+			fatal("scheduler engine self-test: %s", herr)
+		}
+		selfNote = fmt.Sprintf("scheduler engine self-test passed in this build: %v programs, %v executions", res.Extra["selftest_programs"], res.Extra["selftest_executions"])
 	}
 
 	if rf != nil {
@@ -290,6 +314,9 @@ func main() {
 
 	// Aggregate.
 	agg := proto.ShardResult{Property: id, Outcomes: map[string]int64{}, Extra: map[string]interface{}{}, Exhaustive: true}
+	if selfNote != "" {
+		agg.Notes = append(agg.Notes, selfNote)
+	}
 	perBuild := map[string]map[string]int64{}
 	var viols []struct {
 		v proto.Violation
@@ -421,8 +448,14 @@ func main() {
 		"violations":  nviol,
 	}
 	eb, _ := json.MarshalIndent(ev, "", " ")
-	_ = os.MkdirAll(filepath.Join(verifDir, "evidence"), 0o755)
-	if err := os.WriteFile(filepath.Join(verifDir, "evidence", id+".json"), eb, 0o644); err != nil {
+	evDir := filepath.Join(verifDir, "evidence")
+	if os.Getenv("VERIF_REPO_DIR") != "" {
+		// a run against a scratch copy of the library (seed validation) says nothing about /repo: its evidence
+		// goes to a scratch directory, not over the committed files
+		evDir = filepath.Join(verifDir, ".build", "evidence-scratch")
+	}
+	_ = os.MkdirAll(evDir, 0o755)
+	if err := os.WriteFile(filepath.Join(evDir, id+".json"), eb, 0o644); err != nil {
 		fatal("%v", err)
 	}
 	for _, l := range knownLines {
